@@ -166,8 +166,8 @@ var c07Classes = []string{"zeros", "period-2", "counter", "lcg-random", "bitpack
 // bytes, 15/16 literal-length escape, 255/256 length bytes), around gpfile's 4 KiB
 // bufio and 8 KiB scratch sizes, the 64 KiB lz4 window, the 128 KiB zstd block,
 // and "several hundred KiB".
-var c07LengthsQuick = []int{0, 1, 3, 8, 13, 15, 16, 64, 255, 256, 4096, 4097, 8192, 8193, 65535, 65536, 65537, 1048577}
-var c07LengthsThorough = []int{0, 1, 2, 3, 7, 8, 12, 13, 15, 16, 63, 64, 65, 255, 256, 4095, 4096, 4097, 8191, 8192, 8193, 65535, 65536, 65537, 131071, 131072, 131073, 300000, 1048576, 1048577, 2100000}
+var c07LengthsQuick = []int{0, 1, 3, 8, 13, 15, 16, 64, 255, 256, 4096, 4097, 8192, 8193, 16383, 65535, 65536, 65537, 1048577}
+var c07LengthsThorough = []int{0, 1, 2, 3, 7, 8, 12, 13, 15, 16, 63, 64, 65, 255, 256, 4095, 4096, 4097, 8191, 8192, 8193, 16284, 16383, 16384, 16385, 65535, 65536, 65537, 131071, 131072, 131073, 300000, 1048576, 1048577, 2100000}
 
 // c07XL: lengths above it (beyond 1 MiB windows) are combined with two scratch buffers only.
 const c07XL = 1 << 20
@@ -183,6 +183,7 @@ type c07Scratch struct {
 	name   string
 	isNil  bool
 	ln, cp func(b int) int // b = worst-case compressed size for the input
+	relLen int             // != 0: empty buffer whose capacity is the INPUT length + relLen (larger than the input, smaller than the bound)
 }
 
 func c07K(k int) func(int) int { return func(int) int { return k } }
@@ -196,13 +197,14 @@ var c07Scratches = []c07Scratch{
 	{name: "(8192,8192)", ln: c07K(8192), cp: c07K(8192)},
 	{name: "(8192,16384) as gpfile", ln: c07K(8192), cp: c07K(16384)},
 	{name: "(1,bound+1)", ln: c07K(1), cp: func(b int) int { return b + 1 }},
+	{name: "(0,len+8)", relLen: 8},
 	{name: "(0,bound-1)", ln: c07K(0), cp: func(b int) int { return max(b-1, 0) }},
 	{name: "(bound,bound)", ln: func(b int) int { return b }, cp: func(b int) int { return b }},
 	{name: "(bound+100,2*bound+200)", ln: func(b int) int { return b + 100 }, cp: func(b int) int { return 2*b + 200 }},
 	{name: "(0,4*bound+8192)", ln: c07K(0), cp: func(b int) int { return 4*b + 8192 }},
 }
 
-const c07ScratchesQuick = 7
+const c07ScratchesQuick = 8
 
 func c07NumScratches(thorough bool) int {
 	if thorough {
@@ -435,7 +437,12 @@ func c07Exec(cfg, tier string, caseIdx, li, si, reuse int) (r c07Result) {
 	sc := c07Scratches[si]
 	var scratch, scratchOrig []byte
 	if !sc.isNil {
-		sl, scap := sc.ln(bound), sc.cp(bound)
+		var sl, scap int
+		if sc.relLen != 0 {
+			sl, scap = 0, n+sc.relLen
+		} else {
+			sl, scap = sc.ln(bound), sc.cp(bound)
+		}
 		if len(c07Pattern) < scap {
 			c07Pattern = make([]byte, scap+scap/2+4096)
 			for i := range c07Pattern {
@@ -722,7 +729,7 @@ func init() {
 	for _, cfg := range []string{"cgo", "nocgo", "noliblz4", "nolibzstd"} {
 		register("C07."+cfg, &explore.Scenario{
 			ID: "C07", Name: "compress/decompress round trip, every encoder x level x scratch buffer, " + cfg + " build", Level: "exploration",
-			Rule:  "runs inside the " + cfg + " worker build (self-checked against build info and the linked implementations). cases = (encoder,level) x 8 content classes (zeros, period-2, counter, LCG-random, bit-packed-like, half random/half zero, skewed 4-symbol, far-repeat); (encoder,level) = null, lz4 0..12, zstd 0..19 in thorough, null, lz4 {0,1,6,12}, zstd {0,1,3,6,19} in quick. per case the full product of input length (17 values 0..65537 and 1048577 quick, 31 values 0..300000, 1048576, 1048577, 2100000 thorough; lengths above 1 MiB only with the nil and the gpfile scratch buffer) x caller scratch buffers (len,cap) (quick 7: nil, (0,0), (0,64), (0,bound), (8192,8192), (8192,16384) as gpfile, (1,bound+1); thorough adds (0,bound-1), (bound,bound), (bound+100,2bound+200), (0,4bound+8192); non-zero content) x encoder fresh / already used for another block (then the same object also decompresses). oracle: n returned by Compress == bytes received by a recording writer; Decompress(in sized n, out sized len(data), file-like reader) returns len(data) and out == original. non-trivial = completed round trip of a non-empty input, distinct by (length, scratch, encoder history) per case; outcomes = distinct compressed streams",
+			Rule:  "runs inside the " + cfg + " worker build (self-checked against build info and the linked implementations). cases = (encoder,level) x 8 content classes (zeros, period-2, counter, LCG-random, bit-packed-like, half random/half zero, skewed 4-symbol, far-repeat); (encoder,level) = null, lz4 0..12, zstd 0..19 in thorough, null, lz4 {0,1,6,12}, zstd {0,1,3,6,19} in quick. per case the full product of input length (18 values 0..65537 (with 16383: just below gpfile's scratch capacity) and 1048577 quick, 35 values 0..300000, 1048576, 1048577, 2100000 thorough; lengths above 1 MiB only with the nil and the gpfile scratch buffer) x caller scratch buffers (len,cap) (quick 8: nil, (0,0), (0,64), (0,bound), (8192,8192), (8192,16384) as gpfile, (1,bound+1), (0,len+8) = larger than the input but below the worst-case bound; thorough adds (0,bound-1), (bound,bound), (bound+100,2bound+200), (0,4bound+8192); non-zero content) x encoder fresh / already used for another block (then the same object also decompresses). oracle: n returned by Compress == bytes received by a recording writer; Decompress(in sized n, out sized len(data), file-like reader) returns len(data) and out == original. non-trivial = completed round trip of a non-empty input, distinct by (length, scratch, encoder history) per case; outcomes = distinct compressed streams",
 			Cases: func(t string) int { return len(c07EncLevels(t)) * len(c07Classes) },
 			Bound: func(string) int { return 0 },
 			Run:   c07RunFor(cfg), PanicSig: "",
